@@ -1,5 +1,5 @@
 """property id -> suites, evidence rule, trusted base additions"""
-from suites import props_tree, prims, monitor, legacy, c04
+from suites import props_tree, prims, monitor, legacy, c04, sk
 
 RULE_TREE = ("random operation histories (weighted words over fit / refine / recluster / set_merge / setters / "
              "delete_internal_nodes / reset / malformed fit; feature counts 1..24, 63, 64, 65, 100, 256; prototype+noise, "
@@ -39,5 +39,10 @@ PROPS: dict = {
     "C12": {"suites": [prims.suite_bits], "rule": RULE_PRIM},
     "C17": {"suites": [props_tree.c17], "rule": RULE_TREE + "; configuration stream: constructor with names / merge-function objects / "
             "no criterion x tolerance given or not, set_merge with every subset of its arguments, setters, reset"},
+    "C18": {"suites": [sk.suite_sk, props_tree.c01],
+            "rule": "generated data sets (several clusters of distinct and equal sizes) fitted through bblean.sklearn.BitBirch (packed) / "
+                    "UnpackedBitBirch, compute_labels on/off, fit vs fit_predict; labels_, subcluster_centers_, predict and transform "
+                    "(exact rationals) of non-empty query rows compared with the model; the assignment vector is also part of the "
+                    "V_out comparison of every tree history; non-trivial = fit with more than one cluster"},
     "C20": {"suites": [monitor.suite_monitor], "rule": RULE_MON, "proof_modules": ["BBProps.C20", "BBProofs.Monitor", "BBModel.Monitor"]},
 }
